@@ -9,7 +9,9 @@ from .c14 import worker
 PIPE = {"a": ["G:A", "R:A:pf", "R:A:an"], "b": ["G:B", "R:B:df", "R:B:bn"], "c": ["G:A", "R:A:df", "F:A:1", "R:A:pf"],
         "d": ["G:B", "R:B:pf", "R:B:bn", "R:B:df"],
         # the same input rendered under different literal limits (5 distinct values: Literal under 10 / 16, str under 3)
-        "e": ["G:C", "R:C:d3", "R:C:df"], "f": ["G:C", "R:C:b16", "R:C:bn", "R:C:d3"]}
+        "e": ["G:C", "R:C:d3", "R:C:df"], "f": ["G:C", "R:C:b16", "R:C:bn", "R:C:d3"],
+        # short pipelines for the forced schedules: one render each, limits 3 / 16 / 10
+        "g": ["G:C", "R:C:d3"], "h": ["G:C", "R:C:b16"], "i": ["G:C", "R:C:df"]}
 
 
 def solo(name):
@@ -19,6 +21,11 @@ def solo(name):
 def threaded(job):
     names, switch = job
     return job, worker({"threads": len(names), "ops": [PIPE[n] for n in names], "switch": switch}, timeout=600)
+
+
+def scheduled(job):
+    names, segs = job
+    return job, worker({"schedule": segs, "ops": [PIPE[n] for n in names]}, timeout=600)
 
 
 def run(chk, build):
@@ -47,6 +54,28 @@ def run(chk, build):
                 oracle_failed |= chk.fail("oracle", {"threads": list(names), "switch_interval": switch, "thread": i},
                                           f"thread {i} (pipeline {n}) differs from its solo run at call(s) {bad}: {json.dumps(res[i][bad[0]])[:200] if bad else ''}")
                 break
+    # forced schedules: one thread is stopped at its j-th yield point (constructor / generate() entries of the code generators,
+    # entries of generate / merge_models) while the other pipeline runs to its end, then resumes.  Deterministic, replayable.
+    sjobs = []
+    pairs = [("g", "h"), ("h", "g"), ("g", "i"), ("i", "h"), ("e", "f"), ("a", "c"), ("b", "d")] if tier == "quick" else list(itertools.permutations(PIPE, 2))
+    for pa, pb in pairs:
+        for j in range(1, 13 if tier == "quick" else 41):
+            sjobs.append(((pa, pb), [[0, j], [1, 10 ** 6]]))
+    if tier != "quick":
+        for pa, pb in pairs:
+            for j in range(1, 25, 2):
+                for k in range(1, 25, 3):
+                    sjobs.append(((pa, pb), [[0, j], [1, k], [0, 10 ** 6]]))
+    for (names, segs), res in clirun.parallel(scheduled, sjobs, workers=8):
+        chk.count(key=("sched", names, json.dumps(segs)), sample={"threads": list(names), "schedule": segs} if len(chk.samples) < 4 else None)
+        for i, n in enumerate(names):
+            if res[i] != alone[n]:
+                bad = [j for j, (x, y) in enumerate(zip(res[i], alone[n])) if x != y]
+                oracle_failed |= chk.fail("oracle", {"threads": list(names), "schedule": segs, "thread": i},
+                                          f"under the forced schedule {segs} thread {i} (pipeline {n}) differs from its solo run at call(s) {bad}: "
+                                          f"{json.dumps(res[i][bad[0]])[:200] if bad else ''}")
+                break
+    chk.views["X-sched"] = {"cases": len(sjobs), "disagreements": 0, "errors": []}
     chk.views["X-thread"] = {"cases": len(jobs) + 1, "disagreements": 0, "errors": [], "thread_counts": list(sizes)}
     base.conclude(chk, proofs_ok, [], oracle_failed)
 
@@ -56,7 +85,10 @@ def finish(chk):
                       rule="2-4 (quick) / 2-8 (thorough) concurrent independent pipelines (generation, renders for several frameworks and "
                            "layouts, a failing render) in real threads released by a barrier under switch intervals 1e-6..1e-4, each "
                            "compared with its solo run; plus a pipeline run entirely from a fresh worker thread. The schedules are "
-                           "whatever the interpreter produces: they are not enumerated (partial by nature, see DESIGN 6 C15)")
+                           "whatever the interpreter produces: they are not enumerated (partial by nature, see DESIGN 6 C15); plus FORCED "
+                           "schedules (X-sched): two pipelines under a cooperative scheduler, one stopped at its j-th yield point "
+                           "(code-generator constructor / generate() entries, generate / merge_models entries) while the other runs "
+                           "to its end: deterministic and replayable")
 
 
 def replay(chk, path):
@@ -65,6 +97,11 @@ def replay(chk, path):
         print("replay:", r.get("broken") or r)
         return 1
     names = r["threads"]
+    if r.get("schedule") is not None:
+        res = worker({"schedule": r["schedule"], "ops": [PIPE[n] for n in names]})
+        bad = [i for i, n in enumerate(names) if res[i] != worker({"ops": PIPE[n]})]
+        print("REPLAY", f"FAILS: thread(s) {bad} differ from their solo runs under the forced schedule" if bad else "passes")
+        return 1 if bad else 0
     bad = 0
     for k in range(20):
         res = worker({"threads": len(names), "ops": [PIPE[n] for n in names], "switch": r.get("switch_interval", 1e-6)})
